@@ -15,7 +15,7 @@ ASSUME = [
     "encode against serde_json::to_string and against the to_value+$schema file form, decode against serde_json::from_str on the same documents and on mutated documents (decoded values compared, not only accept/reject)",
     "the YAML *text* layer (scalar quoting of true/1e3/~/0x10/null, non-ASCII, block scalars) is NOT modelled: it is exercised by serde_yaml text round trips of every generated value (oracle, a test); level for the YAML half is partial",
     "MODEL GAP (stated in Model/Serde.v, excluded from the generators): an integer literal in [2^63,2^64) at a DefaultValue position becomes Float(z as f64) in serde; the model rejects it",
-    "writer model = VV.M1 revision_fill with every prompt answered by its default (cross-checked here as K-fill); reader = validate_migration_plan",
+    "writer model = VV.M1 revision_fill (incl. default_as_fill, /repo 446c8b4) with every prompt answered by its default and optional user-supplied --fill-with values for non-enum columns (cross-checked here as K-fill); reader = validate_migration_plan. A user-chosen fill value for an enum column is outside the generators: revision writes it unchecked and the loader may answer InvalidEnumDefault (C12_revision_enum_fill_refuted)",
     "f64 values are carried as their Rust to_string() rendering; serde_json / serde_yaml text parsing and printing are trusted (DESIGN §8)",
 ]
 
@@ -53,12 +53,17 @@ def evaluate(chk, res, tier, seed):
                 unexplained = [i for i in unexplained if i not in hit]
             else:
                 chk.notes.append("NOTE stale known finding %s: its witness no longer fails" % k["id"])
-        # a fixed entry suppresses nothing
+        else:
+            # a fixed entry suppresses nothing: its witness is still run first and must now pass
+            wrows = [i for i, r in enumerate(rows) if r.get("tag", "") == "corpus:" + os.path.basename(k.get("witness", "")) and "oracle" in r]
+            bad = [i for i in wrows if i in failing]
+            chk.cov.setdefault("fixed_findings_witness_passes", {})[k["id"]] = bool(wrows) and not bad
     img = [i for i, r in enumerate(rows) if r.get("kind", "").startswith("rt_") and classes.get(i)]
     chk.cov["theorem_coverage"] = {
         "round_trip_cases": len(img), "in_image (covered by decode_encode_*)": sum(1 for i in img if classes[i][3]),
         "revision_cases": sum(1 for r in rows if r.get("kind") == "rev"),
-        "revision_cases_outside_known_class (covered by revision_output_loadable_partial)": sum(1 for i, r in enumerate(rows) if r.get("kind") == "rev" and classes.get(i) and not classes[i][0]),
+        "revision_cases (all covered by revision_no_missing_fill / revision_output_loadable)": sum(1 for r in rows if r.get("kind") == "rev"),
+        "revision_cases_of_the_former_D6_shape (defaulted column becomes NOT NULL)": sum(1 for i, r in enumerate(rows) if r.get("kind") == "rev" and classes.get(i) and classes[i][0]),
         "oracle_failures": len(failing), "classified_known": covered, "unexplained": len(unexplained)}
     chk.cov["yaml_text_round_trips"] = {"cases": sum(1 for r in rows if r.get("kind", "").startswith("rt_")),
                                         "failed": sum(1 for r in rows if r.get("kind", "").startswith("rt_") and not r.get("yaml_ok", True))}
